@@ -9,7 +9,9 @@ EXPL = ("R03.1 weight flow: every count written by the observation writer derive
         "format_with_multiplicity through the per-call writer down to that writer; R03.2 the (definition buffer, value buffer) pair "
         "handed to the metric writer has a single owner on each path; R03.3 on the skipped path the value buffer is rolled back to a "
         "snapshot taken before the write and no definition is written; on the NoMetric path no definition is written; R03.4 both "
-        "emission branches of finish replicate the directive for every additional namespace. Not decided: number formatting, means, "
+        "emission branches of finish replicate the directive for every additional namespace; R03.5 the buffers that carry the dimension "
+        "sets of the directive (global dimension array, per-dimension-set records) are rebuilt from the entry's / the configured sets in "
+        "every call (reset-before-use, same analysis as R14.2), so a record never declares another entry's dimension sets. Not decided: number formatting, means, "
         "timestamps, cartesian dimension sets (runtime values).")
 CR = c02.CR
 
@@ -207,6 +209,11 @@ def run(ctx):
             starts += [x for x in o if x[0] == "const"]
         ctx.check(len(rng) >= len(writes) and all(x[1] == ("int", 1) for x in starts if x[1][0] == "int"), "R03.4", fnkey(b) + "#replicates-namespaces[1..]", loc(b),
                   "replication does not iterate namespaces[1..] in every branch (ranges found: %d, starts %s)" % (len(rng), starts))
+    # ------------------------------------------------------------------ R03.5 dimension sets rebuilt per call
+    import rules.c14 as c14
+    before = len(ctx.instances)
+    c14.run(ctx, only_fields=("dimensions_buf", "dimension_set_map"), rule_prefix="R03.5")
+    ctx.floor("R03.5", "dimension-set carriers checked for per-call rebuild", len([i for i in ctx.instances[before:] if i["rule"] == "R03.5" and "clean-at-first-use" in i["instance"]]), 2)
     return EXPL
 
 
